@@ -154,6 +154,23 @@ CHECKS['C09'] = dict(cat='proof', ref='DESIGN.md §7 C09, notes/C09.md',
   technique='Coq proof over a Gallina model of the collect/report split (linter.go, main.rego) and lsp/cache + differential correspondence (oracle tables, public API, go test -overlay)',
   note=TB + ' H_aggperm observed on every oracle row. Defects repaired in /repo 4817eed, 42020a4; open: cache loses the empty-aggregate marker of custom rules (latent, LSP loads no custom rules).')
 
+CHECKS['C15'] = dict(cat='other', ref='DESIGN.md §7 C15, Appendix A.2, notes/C15.md',
+  text='Partial: kernel-checked job-atomic model of the diagnostics pipeline (handlers, file-lint job, dispatcher + rate limiter, workspace run; linter as oracles under linter_ok). Proved, unbounded: at quiescence '
+       'published = fresh lint and deleted URIs have none, for every job-atomic schedule of (a) histories that never introduce an unparseable document, config changes allowed, and (b) histories without config change with '
+       'arbitrary documents once every file parses (module count != 1). The unrestricted statement, the pinned behaviour and fine-grained schedules are refuted by vm_compute witnesses, each attributed to one modelled defect. '
+       'Real server with all workers: corpus + exhaustive short histories + random <=8 + bursts; last publishes vs a from-scratch lint (model-free), vs the model (exact for one-at-a-time delivery) with linter oracles tabulated '
+       'on the real linter for exactly the keys the predictions use; every divergence attributed inside Coq.',
+  technique='Coq invariant proof over a Gallina LTS + two-pass differential correspondence (vm_compute) against a real LanguageServer via go test -overlay with exact quiescence detection',
+  note=TB + ' Real interleavings are sampled only. Not covered: ignored files, config drop, inline ignores, templating. Repaired in /repo: 18a3a58, 5b03de6. Five open findings (see known_findings.d/C15.json).')
+
+CHECKS['C17'] = dict(cat='other', ref='DESIGN.md §7 C17, notes/C17.md',
+  text='Partial: kernel-checked guard skeletons (nil/len tests around every pointer dereference, constant index and re-read of the loaded config) of all 25 handled methods and 8 worker bodies: no_panic for the current '
+       'revision for all states, messages and concurrent re-reads; refuting witnesses for the pinned revision; the 53 risky sites of server.go are re-extracted on every run and must equal the modelled ones; channel network: '
+       'potential strictly decreases, no deadlock. Real server with all workers under generated message sequences (<=30, all methods, unknown/ignored URIs, broken documents, config appearing/disappearing), one process per batch, '
+       'crash attribution and shrinking, every request answered, idle at the end; -race in the thorough tier.',
+  technique='Coq proof over guard-skeleton programs with a proved-sound static check + regenerated source-site obligation + sequence fuzzing of a real LanguageServer (go test -overlay, -race) with per-message comparison in Coq',
+  note=TB + ' Panics inside callee packages and data races are exercised, not proved absent; quick tier runs without -race. Repaired in /repo: 64390fc, 7453f4a, c526ed0, 9066b08, 9bf6f39, f0eaedd, e2330d8.')
+
 NOT_YET = {}
 
 def main():
